@@ -178,6 +178,26 @@ class Program:
             if name.endswith(".__init__"):
                 name = name[: -len(".__init__")]
             self.modules[name] = Module(name, relpath, src)
+        self.norm_report = []
+        self.unknown_functions = None
+        if os.environ.get("VERIF_NO_REFNORM") != "1" and os.environ.get("VERIF_NO_CANON") != "1":
+            from . import refnorm
+
+            trees = {m.relpath: m.tree for m in self.modules.values()}
+            self.unknown_functions = refnorm.normalise(trees, self.norm_report)
+            if self.unknown_functions is not None and os.environ.get("VERIF_NO_INLINE") != "1":
+                from . import inline, unextract
+                from .canon import canonicalise
+
+                n0 = len(self.norm_report)
+                if self.unknown_functions:
+                    inline.inline_unknown(trees, self.unknown_functions, self.norm_report)
+                unextract.inline_constants(trees, self.norm_report)
+                unextract.unextract_variables(trees, self.norm_report)
+                if len(self.norm_report) > n0:
+                    for t in trees.values():
+                        canonicalise(t)
+                    self.unknown_functions = refnorm.normalise(trees, self.norm_report)
         for m in self.modules.values():
             self._index(m)
         self._func_by_id = {}
